@@ -893,8 +893,7 @@ func c19MarksCase(ctx *Ctx, v cty.Value) {
 
 // ---- paths: valid and invalid ------------------------------------------------------------------
 
-// c19StepExists: does the step name a member of cur?  Returns (exists, decidable):
-// decidable=false when the key is unknown (names no particular member).
+// c19StepExists: does the step name a member of cur?  Returns (exists, decidable).
 func c19StepExists(cur cty.Value, s cty.PathStep) (bool, bool) {
 	if cur.IsNull() {
 		return false, true
@@ -918,8 +917,11 @@ func c19StepExists(cur cty.Value, s cty.PathStep) (bool, bool) {
 		default:
 			return false, true
 		}
-		if !k.IsKnown() || k.IsNull() {
-			return false, false
+		if k.IsNull() {
+			return false, true // a null key names nothing
+		}
+		if !k.IsKnown() {
+			return true, true // names no particular member of a container it fits: accepted
 		}
 		raw, _ := cur.Unmark()
 		switch {
@@ -1091,7 +1093,66 @@ func c19RawEqCase(ctx *Ctx, a, b cty.Value) {
 	ctx.Tag("rawequals")
 }
 
+// c19Corpus: witnesses of repaired findings (must pass now) and boundary shapes the
+// generator meets only by luck: every kind of empty container, marked and not,
+// at the root and nested; marked nulls and unknowns.
+func c19Corpus() (vals []cty.Value, paths []struct {
+	p cty.Path
+	v cty.Value
+}) {
+	empties := []cty.Value{
+		cty.MapValEmpty(cty.String), cty.ListValEmpty(cty.Number), cty.SetValEmpty(cty.Bool),
+		cty.EmptyTupleVal, cty.EmptyObjectVal, cty.NullVal(cty.Map(cty.String)), cty.UnknownVal(cty.List(cty.String)),
+		cty.StringVal("a"), cty.MapVal(map[string]cty.Value{"k": cty.True}),
+	}
+	for _, e := range empties {
+		m := e.Mark("m1")
+		vals = append(vals, e, m, m.Mark("m2"),
+			cty.ObjectVal(map[string]cty.Value{"a": m, "b": e}),
+			cty.TupleVal([]cty.Value{m, e}).Mark("m3"),
+			cty.ListVal([]cty.Value{m, e}),
+			cty.MapVal(map[string]cty.Value{"x": m, "y": e}))
+	}
+	add := func(p cty.Path, v cty.Value) {
+		paths = append(paths, struct {
+			p cty.Path
+			v cty.Value
+		}{p, v})
+	}
+	// repaired: 32f15f9
+	add(cty.IndexPath(cty.UnknownVal(cty.Number)), cty.EmptyTupleVal)
+	add(cty.IndexPath(cty.UnknownVal(cty.Number).RefineNotNull()), cty.TupleVal([]cty.Value{cty.True, cty.StringVal("a")}))
+	add(cty.IndexPath(cty.UnknownVal(cty.Number)), cty.UnknownVal(cty.Tuple([]cty.Type{cty.Bool})).Mark("m1"))
+	add(cty.IndexPath(cty.NullVal(cty.Number)), cty.EmptyTupleVal)
+	add(cty.IndexPath(cty.NullVal(cty.Number)), cty.ListValEmpty(cty.Number))
+	add(cty.IndexPath(cty.NullVal(cty.Number).Mark("m1")), cty.ListVal([]cty.Value{cty.True}))
+	add(cty.IndexPath(cty.NullVal(cty.String)), cty.MapValEmpty(cty.Number))
+	add(cty.IndexPath(cty.NullVal(cty.String)), cty.UnknownVal(cty.Map(cty.Number)))
+	add(cty.IndexPath(cty.NullVal(cty.DynamicPseudoType)), cty.ListValEmpty(cty.Number))
+	add(cty.GetAttrPath("a").Index(cty.UnknownVal(cty.Number)), cty.ObjectVal(map[string]cty.Value{"a": cty.TupleVal([]cty.Value{cty.True})}))
+	add(cty.IndexPath(cty.UnknownVal(cty.Number).Mark("m2")), cty.ListVal([]cty.Value{cty.True}).Mark("m1"))
+	add(cty.IndexPath(cty.UnknownVal(cty.String)), cty.MapVal(map[string]cty.Value{"k": cty.True}))
+	add(cty.IndexPath(cty.NumberIntVal(0).Mark("m2")), cty.ListVal([]cty.Value{cty.True}).Mark("m1"))
+	return
+}
+
+func c19ValueCase(ctx *Ctx, v cty.Value, depth int) {
+	wlog := c19WalkCase(ctx, v)
+	c19TransformCase(ctx, v, wlog)
+	c19MarksCase(ctx, v)
+	c19RawEqCase(ctx, v, v)
+	_ = depth
+}
+
 func runC19(ctx *Ctx) {
+	cvals, cpaths := c19Corpus()
+	for _, v := range cvals {
+		c19ValueCase(ctx, v, 2)
+		ctx.Tag("corpus:value")
+	}
+	for _, c := range cpaths {
+		c19ApplyCase(ctx, c.v, c.p, "corpus")
+	}
 	n := ctx.N(700, 12000)
 	for i := 0; i < n; i++ {
 		depth := 2 + ctx.R.Intn(2)
